@@ -286,6 +286,16 @@ void run_C15(void) {
       const int cfg = (v >= 4 && (OPS[oi].flags & (OPF_FFT64 | OPF_TABLE)) && !(OPS[oi].flags & OPF_AVX)) ? DISP_GENERIC : DISP_NATIVE;
       ops_history_case("", OPS[oi].name, HB[v], (v & 1) ? HB[v] : 2, cfg, v, "long_history_calls");
     }
+  // every entry point with every allocation request made inside the call refused (build tag "oom" only)
+  {
+    static const char* names[512];
+    int nn = 0;
+    for (int oi = 0; oi < N_CAT_OPS && nn < 512; oi++) names[nn++] = OPS[oi].name;
+    for (int chunk = 0; chunk * 32 < nn; chunk++) {
+      const int cnt_ = nn - chunk * 32 < 32 ? nn - chunk * 32 : 32;
+      ops_oom_case("catalogue entries", names + chunk * 32, cnt_, chunk & 1 ? 256 : 64, DISP_NATIVE, th ? 6 : 2, (unsigned)chunk, "calls_repeated_under_allocation_failure");
+    }
+  }
   for (int i = 0; i < NENV; i++)
     for (int n = 0; n < 2; n++)
       if (ENVS[i][n]) env_destroy(ENVS[i][n]);
